@@ -623,6 +623,11 @@ func writeError(w *bufio.Writer, msg string) error {
 	if !strings.HasPrefix(msg, "ERR") && !strings.HasPrefix(msg, "WRONG") {
 		msg = "ERR " + msg
 	}
+	// An error reply is a single line: client-supplied bytes echoed in the text
+	// (e.g. an unknown command name) must not be able to end it early.
+	if strings.ContainsAny(msg, "\r\n") {
+		msg = strings.NewReplacer("\r", " ", "\n", " ").Replace(msg)
+	}
 	_, err := w.WriteString("-" + msg + "\r\n")
 	return err
 }
